@@ -640,6 +640,23 @@ def sf_alloc(ex, node, st):
     return VInt(st.alloc)
 
 
+def sf_called(ex, node, st):
+    """called('f', a1, a2, ...): during this loop iteration a call f(.., a1, a2, ..) was made through f's contract
+    (the given values are compared with the LAST arguments of the call, so `self` may be omitted)."""
+    name = node.args[0].value
+    want = [ex.eval(a, st) for a in node.args[1:]]
+    start = len(st.labels["old"].calllog) if "old" in st.labels else 0
+    alts = []
+    for nm, argv in st.calllog[start:]:
+        if nm != name:
+            continue
+        tail = argv[len(argv) - len(want) :] if want else []
+        if len(tail) != len(want):
+            continue
+        alts.append(z3.And(*[ex.equal(x, y, st) for x, y in zip(tail, want)]) if want else z3.BoolVal(True))
+    return VBool(z3.Or(*alts) if alts else z3.BoolVal(False))
+
+
 def sf_matches(ex, node, st):
     """matches(PATTERN, text): text is in L(PATTERN°) - the language of the real pattern constant, look-arounds erased."""
     from . import regex2smt as R2
@@ -662,6 +679,26 @@ def sf_matches_group(ex, node, st):
     t = ex.eval(node.args[2], st)
     _, groups = R2.to_re(z3_to_bytes(z3.simplify(p.z)))
     return VBool(z3.InRe(t.z, groups[g]))
+
+
+def sf_b64decode(ex, node, st):
+    a = ex.eval(node.args[0], st)
+    return VBytes(uf(ex, "B64DEC", S, S)(a.z))
+
+
+def sf_unquote(ex, node, st):
+    a = ex.eval(node.args[0], st)
+    return VBytes(uf(ex, "UNQUOTE", S, S)(a.z))
+
+
+def sf_utf8(ex, node, st):
+    a = ex.eval(node.args[0], st)
+    return VBytes(uf(ex, "UTF8ENC", S, S)(a.z))
+
+
+def sf_utf16(ex, node, st):
+    a = ex.eval(node.args[0], st)
+    return VStr(uf(ex, "UTF16DEC", S, S)(a.z))
 
 
 def sf_unhexlify(ex, node, st):
@@ -696,8 +733,13 @@ SPEC_FORMS = {
     "hi": sf_hi,
     "alloc": sf_alloc,
     "matches": sf_matches,
+    "called": sf_called,
     "matches_group": sf_matches_group,
     "unhexlify": sf_unhexlify,
+    "b64decode": sf_b64decode,
+    "unquote": sf_unquote,
+    "utf8": sf_utf8,
+    "utf16": sf_utf16,
 }
 
 
